@@ -68,7 +68,7 @@ class Penalty(Unit):
             ds = []
             for _ in range(L):
                 d = {"y": p2(r, -4, 8) if r.random() < 0.85 else 0.0, "c": p2(r, -4, 3) if r.random() < 0.9 else 0.0,
-                     "j": p2(r, -2, 2), "g": p2(r, -2, 2), "obj": float(r.randint(-8, 8)) / 2}
+                     "j": p2(r, -2, 2), "g": (p2(r, -2, 2) if r.random() < 0.85 else 0.0), "obj": float(r.randint(-8, 8)) / 2}
                 ds.append(d)
             cases.append({"pol": pol, "m0": m0, "rho0": rho0, "otol": otol, "itol": itol, "ds": ds})
         return cases
